@@ -47,6 +47,23 @@ def Ev.isLevelWrite : Ev → Bool
   | .lvPop _ => true
   | _ => false
 
+/-- no event of the list writes `MainLoop._event_queues` -/
+def NoLevelWrite (l : List (Nat × Ev)) : Prop := ∀ x ∈ l, x.2.isLevelWrite = false
+
+/-- Thread `t` is inside the critical section of `enqueue_signal` it entered last: the schedule so far is
+`pre0 ++ (t, lvIter lv) :: mid` where `lv` is the level list it read (`reversed(self._event_queues)`), nobody
+has written the level list since (`mid` has no `lvAppend`/`lvPop`), and `t`'s own accesses since are exactly
+`evs`. -/
+def CritSec (t : Nat) (sched : List (Nat × Ev)) (lv : List Nat) (evs : List Ev) : Prop :=
+  ∃ pre0 mid, sched = pre0 ++ (t, .lvIter lv) :: mid ∧ NoLevelWrite mid ∧ evsOf t mid = evs
+
+/-- Thread `t` is on the fallback path of the `enqueue_signal` it entered last: it read the level list `lv`,
+asked every level of it (innermost first) under the main lock while nobody wrote the level list, got the answer
+"not mine" from all, released the main lock, and its accesses since are exactly `evs`. -/
+def Fallback (t : Nat) (sched : List (Nat × Ev)) (src : Option Nat) (evs : List Ev) : Prop :=
+  ∃ pre0 lv mid1 mid2, sched = pre0 ++ (t, .lvIter lv) :: mid1 ++ (t, .relMain) :: mid2 ∧ NoLevelWrite mid1 ∧
+    evsOf t mid1 = lv.reverse.flatMap (askNo src) ∧ evsOf t mid2 = evs
+
 /-- the put records of a schedule: (queue, signal id, priority, arrival number), in order -/
 def Ev.putRec : Ev → List (Nat × Nat × Int × Nat)
   | .put q sid prio o => [(q, sid, prio, o)]
